@@ -11,7 +11,7 @@ from __future__ import annotations
 import ast
 
 from .. import flow
-from ..astutil import assigned_targets, body_walk, call_name, call_recv, calls_in, norm, strip_await, walk_no_nested
+from ..astutil import assigned_targets, body_walk, call_name, call_recv, calls_in, kwarg, norm, strip_await, walk_no_nested
 from .common import in_lock, parmap, typer, env_of, where
 
 PROP = "C13"
@@ -440,6 +440,81 @@ def r13_8(ctx):
     ctx.floor("R13.8", n, 2, "functions that change msg_keys and write .mh_sequences")
 
 
+def r13_9(ctx):
+    """MH hands the next delivered message the highest key + 1: the key of a message that has just been removed may name a
+    new message by the time `.mh_sequences` is rewritten.  (a) set_sequences_in_folder() keeps the folder's entries of keys
+    it does not know (the delivery agent's `unseen`) - but of the keys its caller names as `gone` it keeps `unseen` only:
+    everything else the folder says about them is what the server wrote for the removed message.  (b) Every function that
+    removes message files one by one names them: the rewrite it reaches carries `gone=<the keys removed>`."""
+    from .common import pm_of
+
+    p = ctx.p
+    fi = p.func("mbox.Mailbox.set_sequences_in_folder")
+    ctx.analysed(fi)
+    pm = pm_of(p, fi)
+    if "gone" not in [a.arg for a in fi.node.args.args + fi.node.args.kwonlyargs]:
+        ctx.bad("R13.9", fi.module, fi.qual, "set_sequences_in_folder(seqs, gone=...)", "the rewrite of .mh_sequences cannot be told which keys its caller has just removed: what the folder still says about them is kept as `not ours`, and a message delivered under a re-used key inherits \\Deleted / \\Answered of the removed one", fi.node.lineno)
+        return
+    shapes = [
+        "for name, keys in self.mailbox.get_sequences().items():\n    not_ours = set(keys) - ours\n    if name != 'unseen':\n        not_ours -= gone\n    ...",
+        "for name, keys in self.mailbox.get_sequences().items():\n    not_ours = set(keys) - ours\n    if name != 'unseen':\n        not_ours.difference_update(gone)\n    ...",
+        "for name, keys in self.mailbox.get_sequences().items():\n    not_ours = set(keys) - ours - gone if name != 'unseen' else set(keys) - ours\n    ...",
+    ]
+    if any(pm.has(x) for x in shapes):
+        ctx.ok("R13.9", where(fi), "entries of the keys named `gone` are dropped from what is kept of the folder's file, `unseen` excepted")
+    else:
+        ctx.bad("R13.9", fi.module, fi.qual, "if name != 'unseen': not_ours -= gone", "the rewrite of .mh_sequences keeps what the folder says about keys the caller has just removed (or drops their `unseen` too): a message delivered under a re-used key inherits \\Deleted / \\Answered of the removed one - the next EXPUNGE destroys it - or comes up \\Seen", fi.node.lineno)
+    n = 0
+    for f2 in p.functions.values():
+        muts = [m for m in seq_mutations(f2) if m[2] == "message file removed"]
+        if not muts:
+            continue
+        n += 1
+        ctx.analysed(f2)
+        par = parmap(f2)
+        for obj in sorted({m[1] for m in muts}):
+            wb = [c for c in calls_in(f2.node) if call_name(c) == "set_sequences_in_folder" and norm(call_recv(c)) == obj]
+            # the loop(s) the removals sit in
+            loops = []
+            for m in muts:
+                if m[1] != obj:
+                    continue
+                cur = m[0]
+                while cur in par:
+                    cur = par[cur]
+                    if isinstance(cur, (ast.For, ast.AsyncFor)):
+                        loops.append(cur)
+                        break
+            okc = None
+            why = "no rewrite of .mh_sequences carries gone="
+            for c in wb:
+                g_ = c.args[1] if len(c.args) > 1 else kwarg(c, "gone")
+                if g_ is None:
+                    continue
+                gtxt = norm(g_)
+                if any(norm(l.iter) == gtxt for l in loops):
+                    okc = (c, "the list the removal loop walks")
+                    break
+                if isinstance(g_, ast.Name):
+                    defs = [s for s in body_walk(f2.node) if isinstance(s, ast.Assign) and len(s.targets) == 1 and isinstance(s.targets[0], ast.Name) and s.targets[0].id == g_.id]
+                    if len(defs) == 1 and norm(defs[0].value) in (f"{obj}.msg_keys", f"list({obj}.msg_keys)", f"{obj}.msg_keys[:]", f"{obj}.msg_keys.copy()"):
+                        # ... taken before the list is reset
+                        resets = [s for s in body_walk(f2.node) if isinstance(s, ast.Assign) and any(norm(t) == f"{obj}.msg_keys" for t in s.targets)]
+                        if all(defs[0].lineno < r.lineno for r in resets):
+                            okc = (c, f"{obj}.msg_keys as it was before the reset")
+                            break
+                        why = f"`{g_.id}` is read from {obj}.msg_keys after the list was reset"
+                    apps = [x for l in loops for x in calls_in(l) if call_name(x) == "append" and norm(call_recv(x)) == g_.id]
+                    if apps:
+                        okc = (c, "keys collected in the removal loop")
+                        break
+            if okc:
+                ctx.ok("R13.9", where(f2), f"{obj}: rewrite after the removals names the removed keys ({okc[1]})")
+            else:
+                ctx.bad("R13.9", f2.module, f2.qual, f"{obj}.set_sequences_in_folder(..., gone=<removed keys>)", f"message files of {obj} are removed one by one and {why}: a message delivered meanwhile under a freed key keeps the flags of the removed message", muts[0][0].lineno)
+    ctx.floor("R13.9", n, 2, "functions that remove message files one by one")
+
+
 def run(ctx):
     ctx.do(r13_1)
     ctx.do(r13_2)
@@ -449,6 +524,7 @@ def run(ctx):
     ctx.do(r13_6)
     ctx.do(r13_7)
     ctx.do(r13_8)
+    ctx.do(r13_9)
     from . import c10
     ctx.do(c10.r10_7)
     from . import c02 as _c02
